@@ -2571,7 +2571,6 @@ class VirtualArrayType(ContentType):
     def tolayout(self, lookup, pos, fields):
         voidptr = ctypes.c_void_p(int(lookup.arrayptrs[pos + self.PYOBJECT]))
         pyptr = ctypes.cast(voidptr, ctypes.py_object)
-        ctypes.pythonapi.Py_IncRef(pyptr)
         virtualarray = pyptr.value
         return virtualarray
 
